@@ -83,16 +83,66 @@ IMPORTS = {
     "C30": [("C25", {"pdu-tables"}, "release / abort PDUs are coded as the peer decodes them", 91, None),
             ("C29", {"pdu-roles"}, "release and abort go out through send(), limited by the peer's maximum as negotiated", 20, None),
             ("C27", {"wire-loop"}, "release() judges the peer's answer by what receive() returns: receive hands on every PDU the wire reader yields", 5,
-             lambda i: str(i["instance"]).startswith(("(g)", "(h)")))],
+             lambda i: str(i["instance"]).startswith(("(g)", "(h)", "(i)")))],
     "C32": [("C27", {"wire-loop"}, "the SCP receives every PDU whatever the segmentation", 39, None),
             ("C03", {"endianness-purity", "vr-header-form", "header-layout"}, "the stored file is the received data set decoded and re-encoded in the negotiated transfer syntax", 340, None)],
     "C33": [("C26", {"header-setup", "writer-siblings", "async-state", "writer-max-from-peer"}, "the SCU's data set goes out through the P-DATA writer", 28, None)],
 }
 
 
+TWIN_USE = {"C28": ["server-establish"], "C29": ["client-establish", "server-establish"], "C30": ["release", "abort", "storescp-loop"], "C32": ["storescp-loop"],
+            "C33": ["storescu-send_file", "storescu-loop"]}
+
+
 def apply_imports(chk, tier, pid):
     for src, rules, why, counted, only in IMPORTS.get(pid, []):
         import_rules(chk, tier, src, rules, why, (counted * 9) // 10, only=only)
+    if pid in TWIN_USE:
+        sync_async_twins(chk, facts.load("W"), "sync-async-twins", TWIN_USE[pid])
+
+
+_TWIN_IGN = re.compile(r"into_future|IntoFuture|Future|poll|Pin|get_mut|branch|from_residual|from_output|Ok$|Err$|Some$|timeout$|context$|map_err$|into$|from$|new_unchecked|Context|as_mut$|deref|^fail$|build$|^await$")
+
+# (crate, kind, path suffix of the synchronous function, suffix of the asynchronous twin, calls only the sync one makes, calls only the async one makes, why)
+TWINS = {
+    "client-establish": ("dicom_ul", None, "client::ClientAssociationOptions::<'a>::establish_impl", "client::ClientAssociationOptions::<'a>::establish_impl_async", {}, {}, ""),
+    "server-establish": ("dicom_ul", None, "server::ServerAssociationOptions::<'a, A, N>::establish", "server::ServerAssociationOptions::<'_, A, N>::establish_async", {}, {}, ""),
+    "release": ("dicom_ul", None, "association::private::SyncAssociationSealed::release", "association::private::AsyncAssociationSealed::release", {}, {}, ""),
+    "abort": ("dicom_ul", None, "association::private::SyncAssociationSealed::abort", "association::private::AsyncAssociationSealed::abort", {}, {}, ""),
+    "storescp-loop": ("dicom_storescp", "bin", "store_sync::inner", "store_async::inner", {}, {}, ""),
+    "storescu-send_file": ("dicom_storescu", "bin", "store_sync::send_file", "store_async::send_file", {"set_message": 1, "clone": 1}, {"lock": 1},
+                           "progress bar: the sync loop owns it, the async tasks share it behind a mutex"),
+    "storescu-loop": ("dicom_storescu", "bin", "store_sync::inner", "store_async::inner", {"into_iter": 1, "zip": 1, "next": 1, "finish_with_message": 1}, {"lock": 1, "pop": 1},
+                      "the sync loop iterates the file list, the async workers pop from a shared queue"),
+}
+
+
+def sync_async_twins(chk, fx, rule, names):
+    """a synchronous function and its asynchronous twin make the same calls (names up to `_async`, await / future plumbing ignored), except the audited
+    differences of the table: a step added to, dropped from or changed in one twin only is drift"""
+    import collections
+    chk.rule(rule, "SIB: sync / async twins make the same multiset of calls (callee names up to `_async`; await / future plumbing ignored); audited differences are listed in shared.TWINS")
+
+    def call_sig(hh):
+        c_ = collections.Counter()
+        for cal, x in H.calls(hh["body"]):
+            if not cal:
+                continue
+            nm = re.sub(r"_async$", "", cal.split("::")[-1])
+            if _TWIN_IGN.search(nm) or _TWIN_IGN.search(cal.split("::")[-2] if "::" in cal else ""):
+                continue
+            c_[nm] += 1
+        return c_
+    for nm in names:
+        crate, kind, a, b, only_a, only_b, why = TWINS[nm]
+        d = fx.crate(crate, kind)
+        ha = [h for h in d["hir"] if h["path"].endswith(a) and "{closure" not in h["path"]]
+        hb = [h for h in d["hir"] if h["path"].endswith(b) and "{closure" not in h["path"]]
+        if len(ha) != 1 or len(hb) != 1:
+            raise facts.MissingAnchor(f"twins {nm}: {len(ha)} / {len(hb)} candidates")
+        x, y = call_sig(ha[0]), call_sig(hb[0])
+        chk.expect((dict(x - y), dict(y - x)) == (only_a, only_b), rule, nm, "same-calls", {"only sync": only_a, "only async": only_b, "because": why},
+                   {"only sync": dict(x - y), "only async": dict(y - x)}, loc=C.fn_loc(ha[0]))
 
 
 def pdata_reader_error_kinds(chk, fx, rule):
